@@ -24,7 +24,7 @@ func TestMain(m *testing.M) {
 
 var bias = ls.Bias{
 	Weights:   map[ls.OpKind]int{ls.OpPush: 6, ls.OpSpawnPush: 7, ls.OpOpen: 2, ls.OpSettle: 4, ls.OpAdvance: 2, ls.OpStatus: 1, ls.OpFreeze: 4, ls.OpThaw: 1, ls.OpCancel: 4},
-	TaskKinds: []ls.TaskKind{ls.TInstant, ls.TInstant, ls.TInstant, ls.TGated, ls.TGated, ls.TSleep, ls.TSleep, ls.TPanic, ls.TCancel},
+	TaskKinds: []ls.TaskKind{ls.TInstant, ls.TInstant, ls.TInstant, ls.TGated, ls.TGated, ls.TSleep, ls.TSleep, ls.TPanic, ls.TCancel, ls.TGoexit},
 	Deadline:  25,
 	MaxOps:    40,
 	Cancel:    true,
@@ -32,7 +32,7 @@ var bias = ls.Bias{
 
 var loadBias = ls.Bias{
 	Weights:   map[ls.OpKind]int{ls.OpPush: 6, ls.OpSpawnPush: 4, ls.OpOpen: 2, ls.OpSettle: 2, ls.OpAdvance: 1},
-	TaskKinds: []ls.TaskKind{ls.TInstant, ls.TInstant, ls.TGated, ls.TSleep, ls.TPanic},
+	TaskKinds: []ls.TaskKind{ls.TInstant, ls.TInstant, ls.TGated, ls.TSleep, ls.TPanic, ls.TGoexit},
 	MaxOps:    12,
 }
 
@@ -55,6 +55,12 @@ func judge(t *rapid.T, p ls.Program, what string) {
 	}
 	if res.CancelWithBlocked {
 		ev.Label("cancel_with_producer_blocked")
+	}
+	for _, o := range p.Ops {
+		if (o.Kind == ls.OpPush || o.Kind == ls.OpSpawnPush) && o.Task.Kind == ls.TGoexit {
+			ev.Label("history_contains_a_task_that_ends_its_goroutine_(Goexit)")
+			break
+		}
 	}
 	if res.ByDeadline {
 		ev.Label("context_with_deadline")
